@@ -208,8 +208,8 @@ DEFINED = {
     5: dict(power=[0, 1, 2, 3, 5], mode=[0, 1, 2, 3, 4, 8, 9], fan=[0, 1, 2, 3, 4, 5, 6, 9, 10, 11, 12, 13, 14], zpower=[0, 1, 3], ac_ids=16,
             flags=["turbo", "bypass", "spill", "timer"]),
 }
-AC_NAMES = ["Main", "Upstairs AC unit", "Klima ä", "A", "Daikin", "x" * 16, ""]
-ZONE_NAMES = ["Living", "Bed 1", "Café", "", "Küche", "Zone", "日本", "12345678", "a", "Kids"]
+AC_NAMES = ["Main", "Upstairs AC unit", "Klima ä", "A", "Daikin", "x" * 16, "", "\ufeffMain AC", " Lead", "e\u0301t\u00e9 \U0001F3E0"]
+ZONE_NAMES = ["Living", "Bed 1", "Café", "", "Küche", "Zone", "日本", "12345678", "a", "Kids", "\ufeffKids", " x", "a\tb", "\ufffd\ufffe"]
 ERR_TEXTS = [b"ER: FFFE", b"E5", "Fehler ä".encode(), b"x" * 40, b"", b"AC error 7"]
 
 
